@@ -208,7 +208,7 @@ func report(eng *Engine, units []*Unit, start time.Time, workdir string, timeout
 				"solver_time_s": st,
 				"termination_unproved": termUnproved,
 				"undecided":    undecided,
-				"thorough_only_skipped": skipped,
+				"thorough_only_skipped": append(skipped, skippedUnits...),
 				"vacuity": map[string]int{"canaries": canaries, "reachable_confirmed": canaryOK},
 				"known_findings": knownLines,
 				"contracts_source": eng.cs.Source,
